@@ -381,8 +381,9 @@ def run(ctx):
     ctx.sample({"kind": "case", "e": cases[mid["id"]][0], "m": cases[mid["id"]][1], "observed": {"kind": mid["kind"], "exc": mid["exc"]}})
     ctx.cov["rule"] = (
         "SubstEnum (tier constants %r): every expression of depth <= 1 over the tier's leaves with all maps of the families "
-        "M0-M3 of SubstCases (exhaustive), expressions of depth 2 and the fixed quantifier family thinned deterministically "
-        "(strides SD/S1/SE/S2/SQ, rotation Off drawn from the seed); %d cases in %d groups; outcome classes %r. T1 "
+        "M0-M3, Id1 (one identity pair k -> k) and Pin (an identity pair on a sub-term together with a pair on another "
+        "sub-term: keys inside / around a pinned key) of SubstCases (exhaustive), expressions of depth 2 and the fixed "
+        "quantifier family thinned deterministically (strides SD/S1/SE/S2/SQ/SP, rotation Off drawn from the seed); %d cases in %d groups; outcome classes %r. T1 "
         "(LayersAgree, Corollary, SortPreserved, NormalForm, NoOccurrence, WellFormedCase) on every emitted case; every case "
         "replayed on FNode.substitute / env.substituter.substitute / a fresh Substituter (round robin) and judged by "
         "SubstTrace. A case counts as non-trivial when the call raised or returned something different from its input."
